@@ -136,6 +136,19 @@ def build_record(recspec, **meta):
     vals = [build(v) for v in recspec[2]]
     kw = {}
     m = recspec[3] if len(recspec) > 3 and recspec[3] else {}
+    if m.get("_clone_of"):
+        # the descriptor is made with the COPY constructor RecordDescriptor(new name, other descriptor) from a descriptor
+        # of another name whose identifier has been computed already (it was used before)
+        from flow.record import RecordDescriptor
+        key = "clone:" + repr([recspec[1], m["_clone_of"]])
+        if key not in _desc_cache:
+            src_ = descriptor([m["_clone_of"], recspec[1][1]])
+            src_.identifier        # noqa: B018  (cached on the source before it is copied)
+            import warnings
+            with warnings.catch_warnings():
+                warnings.simplefilter("ignore")
+                _desc_cache[key] = RecordDescriptor(recspec[1][0], src_)
+        desc = _desc_cache[key]
     for key in ("_source", "_classification", "_generated"):
         if key in m:
             kw[key] = build(m[key])
